@@ -71,6 +71,23 @@ fn determinism(db: &Db, q: &Query) -> Det {
             }
         });
     }
+    // a LIMIT below the top level makes everything above it (including the
+    // number of rows) depend on which rows were kept
+    let mut nested_limit = false;
+    {
+        let mut c = q.clone();
+        let mut first = true;
+        crate::sql::shrink::visit_query_mut(&mut c, &mut |_| {}, &mut |qq| {
+            if first {
+                first = false;
+            } else if (qq.limit.is_some() || qq.offset.is_some()) && qq.limit != Some(0) {
+                nested_limit = true;
+            }
+        });
+    }
+    if nested_limit {
+        return Det::Skip;
+    }
     let d = determinism_model(db, q);
     if any_limit && d == Det::Exact { Det::CountOnly } else { d }
 }
@@ -308,6 +325,30 @@ impl Check for DiffCheck {
             }
             for (qi, (q, wrap)) in body.iter().enumerate() {
                 let stmt = idxs[qi];
+                if *wrap != Wrap::Query {
+                    // the CTAS / INSERT itself must have had the same fate
+                    let (rd, vd) = (&refrep.outcomes[0][stmt - 1].outcome, &rep.outcomes[0][stmt - 1].outcome);
+                    match (rd, vd) {
+                        (Outcome::Rows(a), Outcome::Rows(b)) => {
+                            // reported counts (rows_inserted) must agree when the
+                            // statement is deterministic
+                            if dets[qi] == Det::Exact && a.rows != b.rows {
+                                stats.count("verdict.violation");
+                                out.push(Violation { property: self.property.into(), class: "rows-mismatch".into(), scenario: sc.clone(), choices: rep.choices.clone(), session: 0, stmt: stmt - 1, expect: Expect::Rows { rows: enc_rows(&a.rows), types: None, sorted_by: vec![], ordered_exact: false }, observed: observe(&rep, 0, stmt - 1), detail: "reported row count of INSERT / CREATE TABLE AS differs from the reference configuration".into(), trace: rep.trace, aux: None });
+                                continue;
+                            }
+                        }
+                        (Outcome::Rows(_), Outcome::Panic { msg }) => {
+                            stats.count("verdict.violation");
+                            out.push(Violation { property: self.property.into(), class: "panic".into(), scenario: sc.clone(), choices: rep.choices.clone(), session: 0, stmt: stmt - 1, expect: Expect::NoPanic, observed: observe(&rep, 0, stmt - 1), detail: format!("panic on the client side: {msg}"), trace: rep.trace, aux: None });
+                            continue;
+                        }
+                        _ => {
+                            stats.count("verdict.dml_not_comparable");
+                            continue;
+                        }
+                    }
+                }
                 let (ro, vo) = (&refrep.outcomes[0][stmt].outcome, &rep.outcomes[0][stmt].outcome);
                 // the statement before the checked one (CTAS / INSERT) must agree on
                 // success too; a failure there shows up as an error on SELECT * anyway
